@@ -830,9 +830,25 @@ class HInterp:
                     if base.kind == "key" and hi is None and lo is not None and _is_nblocks_times_B(nf(self.ev(lo, p)), self.B):
                         return BytesV("tail")
                     raise HUndecided("slice `%s`" % unparse(e))
-                i = nf(self.ev(e.slice, p))
+                it = self.ev(e.slice, p)
+                i = nf(it)
                 if base.kind == "tail" and i[0] == "c":
                     return leaf("tail[%d]" % i[1], 8)
+                if base.kind == "key" and not isinstance(it, (BytesV, BlocksV)):
+                    # key[nblocks*B + j] is tail[j]; with no whole block the tail starts at 0
+                    if self.case is not None and not self.case[1]:
+                        c = self.conc(it)
+                        if c is not None and 0 <= c < self.B:
+                            return leaf("tail[%d]" % c, 8)
+                    nbB = op("mul", ("floordiv", leaf("len", 63), self.B), C(self.B))
+                    try:
+                        d = nf(op("sub", it, nbB))
+                    except (AnalysisError, TypeError, IndexError, KeyError):
+                        d = None
+                    if d is not None and d[0] == "c" and 0 <= d[1] < self.B:
+                        return leaf("tail[%d]" % d[1], 8)
+                    # any other offset: an uninterpreted byte of the key named by its offset term (differs from every tail[j])
+                    return leaf("key[%s]" % show(i)[:90], 8)
                 raise HUndecided("byte access `%s`" % unparse(e))
             if isinstance(base, tuple) and base and base[0] == "tailwords":
                 i = nf(self.ev(e.slice, p))
